@@ -467,3 +467,95 @@ Section Lists.
       + apply Forall_app. split; [exact Hn|exact N2].
   Qed.
 End Lists.
+
+(* ================= the whole run on a permutation of the blocks ================= *)
+Section Final.
+  Context {rx : Type}.
+  Variables (t : tree) (fl : file) (glob : globals) (regexes : list rx)
+            (find : rx -> str -> option (list (option (N * N))))
+            (call : ident -> graph -> list value -> res (value * graph)).
+  Variable okfn : ident -> Prop.
+  Hypothesis Hcall : forall f, okfn f -> call_ok call f.
+  Variable g0 : graph.
+  Notation n0 := (N.of_nat (length g0)).
+  Hypothesis Hglob : forall name v, globals_get glob name = Some v -> vall (fun i => i < n0) v.
+  Hypothesis Hcl : gclosed n0 g0.
+
+  Notation step fuel := (bstep t fl config0 glob regexes find call fuel).
+  Notation dok := (delta_ok ea0 okfn n0 n0 0).
+
+  Lemma dcat_nodes l : d_nodes (dcat l) = concat (map d_nodes l).
+  Proof. induction l as [|x l IH]; [reflexivity|]. rewrite dcat_cons. cbn [dapp d_nodes map concat]. rewrite IH. reflexivity. Qed.
+  Lemma lay_nodes gb kb : forall ds g k, map d_nodes (lay gb kb g k ds) = map d_nodes ds.
+  Proof. induction ds as [|d ds IH]; intros g k; [reflexivity|]. cbn [lay map dren d_nodes]. rewrite IH. reflexivity. Qed.
+  Lemma layN_osegs : forall ds Xs, length ds = length Xs -> layN (osegs ds Xs) = concat (map d_nodes ds).
+  Proof.
+    unfold layN. induction ds as [|d ds IH]; intros [|X Xs] H; try discriminate; [reflexivity|]. rewrite osegs_cons. cbn [map concat oseg_of o_nodes]. rewrite IH by (cbn in H; lia). reflexivity.
+  Qed.
+  Lemma total_layN os : N.of_nat (length (layN os)) = total os.
+  Proof. unfold layN. induction os as [|o l IH]; [reflexivity|]. cbn [map concat total fold_right]. rewrite app_length. fold (total l). unfold o_n. lia. Qed.
+
+  (* STEP 3: if the run on ms (execution phase with `fuel`, evaluation phase with F1) succeeds, then on every
+     permutation ms' the execution phase succeeds with the same fuel, the evaluation phase succeeds from some
+     fuel on, and the final graphs are isomorphic under a renumbering that fixes the nodes of g0 *)
+  Theorem lazy_perm_eval fuel F1 ms ms' u fin p1 : Permutation ms ms' -> Forall (pm_ok fl okfn) ms ->
+    (iterM (step fuel) ms ;;; evaluate_phase t fl call F1) (linit g0) (polls0 None) = Ok (u, fin, p1) ->
+    exists r r', (forall i, r' (r i) = i) /\ (forall i, r (r' i) = i) /\ (forall i, i < n0 -> r i = i) /\
+      exists F0, forall F, (F0 <= F)%nat -> exists fin' p', (iterM (step fuel) ms' ;;; evaluate_phase t fl call F) (linit g0) (polls0 None) = Ok (tt, fin', p') /\
+        graph_iso r (l_graph fin) (l_graph fin').
+  Proof.
+    intros HP Hok H. unfold bind in H.
+    pose proof (exec_phase_perm t fl config0 glob regexes find call ea0 okfn n0 (fun _ => eq_refl) Hcall Hglob (linit g0) (N.le_refl _) eq_refl fuel ms ms' (polls0 None) HP Hok eq_refl) as HX.
+    destruct (iterM (step fuel) ms (linit g0) (polls0 None)) as [[[u1 S] pS]|e|x|] eqn:ES; try discriminate.
+    destruct HX as (ds & ds' & S' & pS' & HD & HD' & Pd & XS & ES' & HpS' & XS').
+    change (lay (gn (linit g0)) (sn (linit g0)) (gn (linit g0)) (sn (linit g0))) with (lay n0 0 n0 (N.of_nat 0%nat)) in XS, XS'.
+    assert (Hdok : Forall dok ds).
+    { clear -HD. induction HD as [|pm d ms ds (st & s' & p' & _ & _ & _ & Hd) _ IH]; constructor; [exact Hd|exact IH]. }
+    assert (Hdok' : Forall dok ds').
+    { clear -HD'. induction HD' as [|pm d ms ds (st & s' & p' & _ & _ & _ & Hd) _ IH]; constructor; [exact Hd|exact IH]. }
+    destruct XS as (Sg & Sst & Se & Sa & Sp & _ & Ssc & _). destruct XS' as (Sg' & Sst' & Se' & Sa' & Sp' & _ & Ssc' & _).
+    cbn [linit l_graph l_store l_edges l_attrs l_prints l_scoped app] in Sg, Sst, Se, Sa, Sp, Ssc, Sg', Sst', Se', Sa', Sp', Ssc'.
+    (* the state after the execution phase of ms can be evaluated denotationally *)
+    destruct (lay_valid okfn n0 ds Hdok n0 0 (N.le_refl _)) as (VT & VS & VN).
+    assert (Hev : evalable okfn S).
+    { unfold evalable. rewrite Sst, Se, Sa, Sp, Ssc. split; [|split; [reflexivity|]].
+      - intros i th E. apply (VT i th E).
+      - apply (VS (length (d_thunks (dcat (lay n0 0 n0 (N.of_nat 0) ds)))) ltac:(cbn; lia)). }
+    destruct (eval_extract t fl call okfn Hcall F1 S pS u fin p1 H Hev) as (rho & eops & aopss & g1 & (Hwf & HE & HA & HPr) & Hg1 & Hg2).
+    rewrite Sst in Hwf. rewrite Se in HE. rewrite Sa in HA. rewrite Sp in HPr.
+    destruct (decompose_list call okfn Hcall n0 ds Hdok n0 0 rho eops aopss (N.le_refl _)) as (Xs & HF & Hseg & -> & ->); try assumption.
+    { intros j th E. cbn [plus]. apply (proj2 Hwf); [apply nth_error_Some; congruence|exact E]. }
+    (* the same canonical summaries, in the order of ms' *)
+    destruct (Forall2_perm_pairs _ _ _ Pd _ HF) as (Xs' & HF' & Pp).
+    assert (Pos : Permutation (osegs ds Xs) (osegs ds' Xs')) by (unfold osegs; apply Permutation_map, Pp).
+    set (rho' := rlay n0 n0 ds' Xs').
+    destruct (compose_list call okfn Hcall n0 ds' Xs' HF' Hdok' n0 0 rho' (N.le_refl _) ltac:(intros j w E; exact E)) as (T' & E' & A' & P' & O').
+    assert (Hos : Forall (oseg_ok n0) (osegs ds Xs)).
+    { apply Forall_forall. intros o Ho. rewrite Forall_forall in O'. apply O'. eapply Permutation_in; eauto. }
+    assert (Hden' : denotes call S' rho' (layE n0 n0 (osegs ds' Xs')) (alay n0 n0 ds' Xs')).
+    { unfold denotes. rewrite Sst', Se', Sa', Sp'. split; [|split; [exact E'|split; [exact A'|exact P']]].
+      split; [unfold rho'; apply (rlay_length call n0 ds' Xs' HF')|]. intros i th _ E. apply (T' i th E). }
+    (* the renumbering *)
+    destruct (perm_ren n0 _ _ Pos Hos n0 (N.le_refl _)) as (r & r' & I1 & I2 & Fx & Rg & PE & PA & PN).
+    assert (Hinj : inj r) by (intros i j E; rewrite <- (I1 i), <- (I1 j), E; reflexivity).
+    assert (Hlen2 : length ds = length Xs) by (eapply Forall2_length'; eauto). assert (Hlen2' : length ds' = length Xs') by (eapply Forall2_length'; eauto).
+    assert (HgS : l_graph S = g0 ++ layN (osegs ds Xs)) by (rewrite Sg, dcat_nodes, lay_nodes, layN_osegs by exact Hlen2; reflexivity).
+    assert (HgS' : l_graph S' = g0 ++ layN (osegs ds' Xs')) by (rewrite Sg', dcat_nodes, lay_nodes, layN_osegs by exact Hlen2'; reflexivity).
+    assert (Hpl : Forall nplain (layN (osegs ds Xs))) by (rewrite layN_osegs by exact Hlen2; rewrite <- (lay_nodes n0 0 ds n0 (N.of_nat 0)), <- dcat_nodes; exact VN).
+    assert (Hpl' : Forall nplain (layN (osegs ds' Xs'))).
+    { destruct (lay_valid okfn n0 ds' Hdok' n0 0 (N.le_refl _)) as (_ & _ & VN'). rewrite layN_osegs by exact Hlen2'. rewrite <- (lay_nodes n0 0 ds' n0 (N.of_nat 0)), <- dcat_nodes. exact VN'. }
+    assert (Htot : total (osegs ds' Xs') = total (osegs ds Xs)) by (symmetry; apply total_perm, Pos).
+    assert (HI : giso r (l_graph S) (l_graph S')).
+    { rewrite HgS, HgS'. apply base_giso; try assumption.
+      - intros i Hi. apply Fx. left. exact Hi.
+      - apply Nat2N.inj. rewrite !total_layN. symmetry. exact Htot.
+      - intros i H1 H2. rewrite total_layN in H2. apply (Rg i H1 H2). }
+    assert (Hsorted : edges_sorted (l_graph S')) by (rewrite HgS'; eapply base_sorted; eauto).
+    rewrite alay_layA in Hg2.
+    destruct (ops_perm_iso r Hinj _ _ _ _ _ _ _ _ HI Hsorted Hg1 Hg2 PE PA) as (g1' & g2' & Hg1' & Hg2' & Hiso).
+    rewrite <- alay_layA in Hg2'.
+    destruct (evaluate_phase_denotes t fl call rho' _ _ g1' g2' S' pS' Hden' Ssc' Hg1' Hg2' HpS') as (F0 & u' & fin' & p' & HB & Hfin & _).
+    exists r, r'. split; [exact I1|]. split; [exact I2|]. split; [intros i Hi; apply Fx; left; exact Hi|].
+    exists F0. intros F HF0. exists fin', p'. unfold bind. rewrite ES'. destruct u'. split; [apply HB, HF0|]. rewrite Hfin. exact Hiso.
+  Qed.
+End Final.
